@@ -278,9 +278,15 @@ class Run:
             shutil.rmtree(self.scratch, ignore_errors=True)
 
 
+MATCHERS = {}
+
+
 def finding_matches(k, case, key):
     if k.get("key") == key:
         return True
+    fn = MATCHERS.get(k.get("matcher"))
+    if fn:
+        return bool(fn(case))
     m = k.get("match")
     if m:
         return all(case.get(f) == v for f, v in m.items())
